@@ -24,7 +24,7 @@ FORMS = ['keys-int', 'keys-name', 'keys-mixed', 'mapping-int', 'mapping-name', '
 STRICT_FORMS = {'convenience-values', 'convenience-name', 'grades-values', 'full-values', 'fromkeysvalues', 'name'}
 BAD = ['length-mismatch', 'length-mismatch-grades', 'keys-outside-grades', 'kw-outside-grades', 'invalid-grade', 'negative-grade',
        'graded-incomplete-keys', 'graded-incomplete-mapping', 'graded-incomplete-kw', 'graded-incomplete-name', 'graded-incomplete-fromkw-perm',
-       'kw-blade-outside-algebra', 'repeated-grade', 'int-key-outside-algebra']
+       'kw-blade-outside-algebra', 'repeated-grade', 'int-key-outside-algebra', 'kw-same-blade-twice', 'kw-with-values']
 KINDS = ['int', 'frac', 'float', 'str', 'sympy', 'ndarray']
 
 
@@ -44,6 +44,10 @@ def plan(tier, seed):
             {'p': 3, 'q': 0, 'r': 1}, {'p': 1, 'q': 0, 'r': 0}, {'named': '2DPGA'}, {'named': '3DPGA'},
             {'p': 3, 'q': 0, 'r': 0, 'opts': {'graded': True}}, {'p': 2, 'q': 0, 'r': 1, 'opts': {'graded': True}},
             {'p': 2, 'q': 0, 'r': 0, 'opts': {'graded': True}}, {'p': 2, 'q': 1, 'r': 0, 'start_index': 0}, {'signature': [1, -1, 0], 'start_index': 2}]
+    # start indices that make generator labels hexadecimal letters (a..f, among them the letter 'e' that also prefixes every blade name),
+    # and start indices for which str(2**d) spells a blade of the algebra
+    cfgs += [{'p': 3, 'q': 1, 'r': 1, 'start_index': 10}, {'p': 2, 'q': 0, 'r': 0, 'start_index': 13}, {'p': 2, 'q': 1, 'r': 0, 'start_index': 12},
+             {'p': 2, 'q': 0, 'r': 0, 'start_index': 3}, {'p': 2, 'q': 0, 'r': 1, 'start_index': 6}, {'p': 1, 'q': 0, 'r': 0, 'start_index': 2}]
     cfgs += [gen.random_custom_cfg(rng, rng.choice((2, 3, 3, 4))) for _ in range(10 if tier == 'quick' else 60)]
     if tier == 'thorough':
         cfgs += gen.pqr_all(1, 4)[::2] + [dict(c, opts={'graded': True}) for c in gen.pqr_all(2, 4)[::3]]
@@ -341,6 +345,22 @@ def read_back(ctx, alg, iso, mv, expected):
             ctx.count('foreign_name_reads')
         except Exception:
             ctx.count('foreign_name_reads')
+    # a name that contains a generator the algebra does not have is no blade of it: if reading it returns at all, it reads 0
+    own = gen.default_names(d, alg.start_index)
+    outside = [hex(alg.start_index + d + j)[2:] for j in range(3)] + ([hex(alg.start_index - 1)[2:]] if alg.start_index >= 1 else [])
+    outside = [o for o in outside if len(o) == 1 and o not in own]
+    for o in outside:
+        for nm_out in ['e' + o] + (['e' + ''.join(sorted([rng.choice(own), o]))] if own else []):
+            if nm_out in alg.canon2bin:
+                continue
+            try:
+                got_out = getattr(mv, nm_out)
+            except Exception:
+                ctx.count('outside_generator_reads_raised')
+                continue
+            ctx.count('outside_generator_reads')
+            if not coef_is_zero(got_out):
+                P.append(['a name with a generator outside the algebra reads a coefficient', nm_out, show(got_out, 50)])
     # grade()
     for _ in range(2):
         gs = tuple(sorted(rng.sample(range(d + 1), rng.randint(0, d + 1))))
@@ -520,6 +540,43 @@ def bad_case(ctx, alg, iso, cfg, name, what):
             if how == 'mapping':
                 return alg.multivector({k: 2 + i for i, k in enumerate(ks)})
             return alg.vector({k: 2 + i for i, k in enumerate([k for k in ks if k == badkey or bin(k).count('1') == 1])})
+    elif what == 'kw-same-blade-twice':
+        # two keywords that spell the same blade (canonical and permuted): both coefficients cannot be reflected
+        if graded:
+            return
+        cands = [nm for nm in alg.canon2bin if len(nm) >= 3]
+        if not cands:
+            return
+        nm = rng.choice(cands)
+        body = list(nm[1:])
+        for _ in range(10):
+            perm = body[:]
+            rng.shuffle(perm)
+            if perm != body:
+                break
+        else:
+            return
+        other = 'e' + ''.join(perm)
+        desc = {'keywords': [nm, other]}
+
+        def f():
+            return alg.multivector(**{nm: 3, other: 5})
+    elif what == 'kw-with-values':
+        # keyword blades next to values / keys / a mapping: documented as mutually exclusive; the keyword coefficient cannot be reflected
+        if graded:
+            return
+        ks = gen.random_subset(rng, canon, 3, 1)
+        extra = rng.choice([nm for nm in alg.canon2bin])
+        how = rng.choice(('values-keys', 'mapping', 'vector-values'))
+        desc = {'how': how, 'keys': list(ks), 'keyword': extra}
+
+        def f():
+            if how == 'values-keys':
+                return alg.multivector([2 + i for i in range(len(ks))], tuple(ks), **{extra: 50})
+            if how == 'mapping':
+                return alg.multivector({k: 2 + i for i, k in enumerate(ks)}, **{extra: 50})
+            nv = len(alg.indices_for_grades[(1,)])
+            return alg.vector([1 + i for i in range(nv)], **{extra: 50})
     elif what == 'repeated-grade':
         # a grades tuple naming the same grade twice cannot describe a multivector: the value list would address blades twice
         g = rng.randint(0, d)
